@@ -117,6 +117,12 @@ class XMLWriter(object):
         s = self.totype(data, encoding="utf_8")
         if strip:
             s = s.strip()
+        # line ends inside the data must follow the file's newline convention,
+        # or e.g. a "\r" newline followed by data starting with "\n" would be
+        # read back as a single line end
+        nl = self.totype("\n")
+        if self.newlinestr != nl:
+            s = s.replace(nl, self.newlinestr)
         self.file.write(s)
 
     def newline(self):
